@@ -12,7 +12,7 @@ import (
 // leaving the loop, or returning from the function.
 type IterPath struct {
 	Blocks []*ssa.BasicBlock
-	End    string // "back" | "exit" | "return"
+	End    string  // "back" | "exit" | "return"
 	Conds  []Guard // branch outcomes taken on the path
 	ExitTo *ssa.BasicBlock
 }
